@@ -1145,7 +1145,14 @@ def _m_reshape(fr, x, *shape):
 @method('Tn.flatten')
 def _m_flatten(fr, x, *a, **kw):
     if a or kw:
-        raise Unsupported("flatten with args")
+        sd = a[0] if a else kw.get('start_dim', 0)
+        ed = a[1] if len(a) > 1 else kw.get('end_dim', -1)
+        sd, ed = norm_dim(O.conc_int(sd), x.rank), norm_dim(O.conc_int(ed), x.rank)
+        if sd == ed:
+            return x          # a single dimension: the tensor itself
+        if sd == 0 and ed == x.rank - 1:
+            return _m_reshape(fr, x, -1)
+        raise Unsupported("flatten of an inner range of dimensions")
     return _m_reshape(fr, x, -1)
 
 
@@ -1334,6 +1341,46 @@ def _mean(fr, x, *a, **kw):
     return _m_mean(fr, x, *a, **kw)
 
 
+POOLLEN = z3.Function('POOLLEN', z3.IntSort(), z3.IntSort(), z3.IntSort(), z3.IntSort(), z3.IntSort(), z3.BoolSort(), z3.IntSort())
+
+
+@lib('torch.nn.functional.max_pool1d')
+def _max_pool1d(fr, x, kernel_size, stride=None, padding=0, dilation=1, ceil_mode=False, return_indices=False):
+    """assumed contract of max pooling over the last dimension: the number of windows is a function POOLLEN of
+    (length, kernel_size, stride, padding, dilation, ceil_mode); with return_indices the index of a maximal
+    element of every window (a position of the input row)"""
+    ctx = fr.ctx
+    x = as_tn(fr, x)
+    if x.rank != 3:
+        raise Unsupported("max_pool1d on a tensor of rank %d" % x.rank)
+    sc = lambda v: unwrap_scalar(v) if isinstance(v, Tn) else v
+    ks, st, pad, dil = sc(kernel_size), sc(stride if stride is not None else kernel_size), sc(padding), sc(dilation)
+    cm = ceil_mode if isinstance(ceil_mode, bool) or O.is_sym(ceil_mode) else bool(ceil_mode)
+    L = x.shape[2]
+    Lo = POOLLEN(*[O.to_z3(v) for v in (L, ks, st, pad, dil)], O.to_z3(cm) if O.is_sym(cm) else z3.BoolVal(bool(cm)))
+    ctx.assume(Lo >= 0)
+    nm = O.fresh_name('pool')
+    vf = z3.Function(nm + '.val', z3.IntSort(), z3.IntSort(), z3.IntSort(), z3.RealSort())
+    af = z3.Function(nm + '.arg', z3.IntSort(), z3.IntSort(), z3.IntSort(), z3.IntSort())
+    shape = [x.shape[0], x.shape[1], Lo]
+    s = x.snapshot()
+    r_, c_, o_ = z3.Ints('%s_r %s_c %s_o' % (nm, nm, nm))
+    ctx.assume(z3.ForAll([r_, c_, o_], z3.And(af(r_, c_, o_) >= 0, af(r_, c_, o_) < O.to_z3(L)), patterns=[af(r_, c_, o_)]))
+    ctx.trusted.add('assumed: max_pool1d has POOLLEN(length, kernel, stride, padding, dilation, ceil_mode) windows; its indices are positions of the input row')
+    out = Tn.fresh(shape, lambda r, c, o: vf(*[O.to_z3(v) for v in (r, c, o)]), 'real', lib=x.lib)
+    ctx.ghost['last_pool'] = {'input': x, 'n_windows': Lo, 'indices': (lambda r, c, o: af(*[O.to_z3(v) for v in (r, c, o)]))}
+    if return_indices is True or (not isinstance(return_indices, bool) and O.simp(return_indices) is True):
+        return (out, Tn.fresh(shape, lambda r, c, o: af(*[O.to_z3(v) for v in (r, c, o)]), 'int', lib=x.lib))
+    return out
+
+
+@lib('torch.max')
+def _torch_max(fr, x, *a, **kw):
+    if len(a) == 1 and isinstance(a[0], Tn) and not kw:
+        return LIB['torch.maximum'](fr, x, a[0])
+    return METHODS['Tn.max'](fr, as_tn(fr, x), *a, **kw)
+
+
 def _argminmax(which):
     def f(fr, x, dim=None, axis=None, **kw):
         """argmin / argmax of a vector: an assumed relation - an index of an extremal element, the first one"""
@@ -1445,6 +1492,20 @@ METHODS['Tn.min'] = _minmax_method('min')
 def _m_scatter_add_(fr, y, dim, index, src):
     """y[k] += sum_r [index[r] == k] * src[r]   (rank 1; the axiom of C18)"""
     ctx = fr.ctx
+    if y.rank == index.rank == src.rank and y.rank > 1 and norm_dim(O.conc_int(dim), y.rank) == y.rank - 1:
+        # along the last dimension, row by row: y[b, k] += sum_{r < R} [index[b, r] == k] * src[b, r]; index may
+        # be shorter than src along that dimension (torch then ignores the rest of src) but not longer
+        for q in range(y.rank - 1):
+            if not known_eq(ctx, y.shape[q], index.shape[q]) or not known_eq(ctx, y.shape[q], src.shape[q]):
+                raise Unsupported("scatter_add_ with unequal leading dimensions")
+        R = index.shape[-1]
+        ctx.may_raise(src.shape[-1] < R if O.any_sym(src.shape[-1], R) else (src.shape[-1] < R), 'RuntimeError')
+        isn, ssn, old = index.snapshot(), src.snapshot(), y.snapshot()
+        n = y.shape[-1]
+        kind = 'real' if y.kind == 'real' or src.kind == 'real' else 'int'
+        new = Tn.fresh(list(y.shape), lambda *b: old(*b) + Sum(0, R, lambda r: ite(O.eq(isn(*b[:-1], r), b[-1]), ssn(*b[:-1], r), 0), kind), y.kind, lib=y.lib)
+        y.write([('all',)] * y.rank, new, ctx)
+        return y
     if y.rank != 1 or index.rank != 1 or src.rank != 1 or O.conc_int(dim) != 0:
         raise Unsupported("scatter_add_ beyond rank 1")
     R = index.shape[0]
